@@ -282,6 +282,50 @@ def systematic_cfb(data):
             yield "cfb-difat-chain-" + kind, d
         yield "cfb-difat-chain-past-eof", patch(patch(data, 68, p32(n)), 72, p32(1))
         yield "cfb-difat-chain-partial", patch(patch(data, 68, p32(a)), 72, p32(1))[:c.sec_off(a) + 100]
+    # --- cycles through the sector that starts exactly at the end of the file: it reads as an
+    #     EMPTY slice (a tolerated short read), so a bound on the bytes collected never fires; only
+    #     a bound on the sectors visited ends such a walk
+    nf = len(data) // c.ss - 1                      # sectors wholly present
+    base = data[:(nf + 1) * c.ss]                   # file cut to a sector boundary
+    cb = Cfb(base)
+    if cb.ok and nf >= 2:
+        for (tag, loop) in (("self", [(nf, nf)]), ("2cycle", [(nf, nf + 1), (nf + 1, nf)]), ("via-last", [(nf, nf - 1)])):
+            d0 = base
+            okp = True
+            for (e, nxt) in loop:
+                off = cb.fat_entry_off(e)
+                if off is None or off + 4 > len(base):
+                    okp = False
+                    break
+                d0 = patch(d0, off, p32(nxt))
+            if not okp:
+                continue
+            if tag == "via-last":
+                # the last sector points to the end-of-file sector, which points back to it
+                off = cb.fat_entry_off(nf - 1)
+                if off is None:
+                    continue
+                d0 = patch(d0, off, p32(nf))
+            for d in cb.dirs[:8]:
+                if d["off"] is not None:
+                    yield "cfb-eof-cycle-%s-dir[%d].start" % (tag, d["i"]), patch(d0, d["off"] + 116, p32(nf))
+                    yield "cfb-eof-cycle-%s-dir[%d].start-big" % (tag, d["i"]), patch(patch(d0, d["off"] + 116, p32(nf)), d["off"] + 120, p32(0x10000))
+            for off_h in (48, 60, 68):
+                yield "cfb-eof-cycle-%s-hdr@%d" % (tag, off_h), patch(d0, off_h, p32(nf))
+            yield "cfb-eof-cycle-%s-minifat" % tag, patch(patch(d0, 60, p32(nf)), 64, p32(1))
+            for ch in (cb.dir_chain, cb.mini_chain, cb.minifat_chain) + tuple(cb.chain(d["start"]) for d in cb.dirs[1:4] if d["typ"] == 2 and d["size"] >= 4096):
+                if ch and cb.fat_entry_off(ch[-1]) is not None:
+                    yield "cfb-eof-cycle-%s-after[%d]" % (tag, ch[-1]), patch(d0, cb.fat_entry_off(ch[-1]), p32(nf))
+        # the same inside the mini stream: the mini sector that starts at its end
+        m = len(cb.mini) // 64
+        if cb.minifat_entry_off(m) is not None:
+            d0 = patch(base, cb.minifat_entry_off(m), p32(m))
+            for d in cb.dirs[1:8]:
+                if d["off"] is not None and d["typ"] == 2 and d["size"] < 4096:
+                    yield "cfb-mini-eof-cycle-dir[%d].start" % d["i"], patch(d0, d["off"] + 116, p32(m))
+                    ch = cb.chain(d["start"], cb.minifat)
+                    if ch and cb.minifat_entry_off(ch[-1]) is not None:
+                        yield "cfb-mini-eof-cycle-after[%d]" % ch[-1], patch(d0, cb.minifat_entry_off(ch[-1]), p32(m))
     # --- FAT entries of the sectors that matter
     interesting = []
     for ch in (c.dir_chain, c.mini_chain, c.minifat_chain, c.fat_sectors):
@@ -1152,6 +1196,48 @@ def systematic_vba(fmt, data):
 
 # ---------------------------------------------------------------- random record-aware faults
 
+def random_cfb_fault(c, data, rng):
+    """one random fault on a compound-file structure, in constant time (one patch of the file)"""
+    n = c.nsect
+    ids = [0, 1, max(0, n - 1), n, n + 1, rng.randrange(0, n + 2), 0x7FFFFFFF, 0xFFFFFFFA, DIFSECT, FATSECT, ENDOFCHAIN, FREESECT]
+    k = rng.random()
+    if k < 0.2:
+        off = rng.choice((40, 44, 48, 56, 60, 64, 68, 72))
+        v = rng.choice(ids)
+        return "cfb-hdr32@%d=%x" % (off, v), patch(data, off, p32(v))
+    if k < 0.3:
+        i = rng.randrange(0, 109)
+        v = rng.choice(ids)
+        return "cfb-difat[%d]=%x" % (i, v), patch(data, 76 + 4 * i, p32(v))
+    if k < 0.65 and c.fat:
+        sid = rng.randrange(0, min(len(c.fat), n + 2))
+        off = c.fat_entry_off(sid)
+        if off is not None and off + 4 <= len(data):
+            v = rng.choice(ids + [sid, max(0, sid - 1)])
+            return "cfb-fat[%d]=%x" % (sid, v), patch(data, off, p32(v))
+    if k < 0.75 and c.minifat:
+        mid = rng.randrange(0, len(c.minifat))
+        off = c.minifat_entry_off(mid)
+        if off is not None and off + 4 <= len(data):
+            v = rng.choice([mid, 0, len(c.minifat), len(c.mini) // 64, 0x7FFFFFFF, ENDOFCHAIN, FREESECT])
+            return "cfb-minifat[%d]=%x" % (mid, v), patch(data, off, p32(v))
+    ds = [d for d in c.dirs[:12] if d["off"] is not None]
+    if ds:
+        d = rng.choice(ds)
+        which = rng.choice(("start", "size", "namelen", "type"))
+        if which == "start":
+            v = rng.choice(ids)
+            return "cfb-dir[%d].start=%x" % (d["i"], v), patch(data, d["off"] + 116, p32(v))
+        if which == "size":
+            v = rng.choice((0, 1, 63, 64, 4095, 4096, d["size"] + 1, len(data), 0x7FFFFFFF, 0xFFFFFFFF))
+            return "cfb-dir[%d].size=%x" % (d["i"], v), patch(data, d["off"] + 120, p32(v))
+        if which == "namelen":
+            v = rng.choice((0, 1, 2, 63, 64, 65, 0xFFFF))
+            return "cfb-dir[%d].namelen=%x" % (d["i"], v), patch(data, d["off"] + 64, p16(v))
+        v = rng.choice((0, 1, 2, 5, 0xFF))
+        return "cfb-dir[%d].type=%x" % (d["i"], v), patch(data, d["off"] + 66, bytes([v]))
+    return None
+
 def random_structured(fmt, data, rng):
     """one random structure-aware fault (falls back to the blind ones)"""
     try:
@@ -1160,9 +1246,9 @@ def random_structured(fmt, data, rng):
             if k < 0.35:
                 c = Cfb(data)
                 if c.ok:
-                    pool = list(_sample(systematic_cfb(data), rng, 1))
-                    if pool:
-                        return pool[0]
+                    f = random_cfb_fault(c, data, rng)
+                    if f:
+                        return f
             name, stream = xls_workbook_stream(data)
             if stream is not None and k < 0.9:
                 recs = biff_records(stream)
